@@ -1,2 +1,19 @@
 """Classifiers of known findings: each decides from the failing input alone whether
 it belongs to the recorded finding (never by property id alone)."""
+import re
+
+_F17 = re.compile(r'^content-type[ \t]*:[ \t]*(multipart|message)/[^/;\s]*\s*(;|$)', re.I | re.M)
+
+
+def f17_mime_container(inp, kind):
+    """C06/F17: a well-formed paragraph holding a field Content-Type whose value has main type
+    multipart or message; the header-style parser hands it to the MIME machinery of the standard
+    email package and returns the paragraph whole under 'unknown'."""
+    text = inp[0] if isinstance(inp, (list, tuple)) and inp and isinstance(inp[0], str) else inp
+    if not isinstance(text, str):
+        return False
+    for m in _F17.finditer(text):
+        main = m.group(0).partition(':')[2].partition(';')[0].strip().lower()
+        if main.count('/') == 1:
+            return True
+    return False
